@@ -120,6 +120,57 @@ class move_in_loop {
     std::vector<std::string> sinks;
 };
 
+// A8 uninitialised-local rule
+struct uninit_local {
+    static int sink(const int& v) { return v; }
+    static int bad()
+    {
+        int v;
+        return sink(v);
+    }
+    static int good(bool c)
+    {
+        int v;
+        if (c) {
+            v = 1;
+        } else {
+            v = 2;
+        }
+        int w{};
+        return sink(v) + sink(w);
+    }
+};
+
+// RAII-token rule: releasing destructor + defaulted move
+class armed_token {
+  public:
+    explicit armed_token(std::atomic<int>* c): cnt(c) { ++(*cnt); }
+    armed_token(armed_token&&) = default;      // copies cnt: both objects decrement
+    ~armed_token()
+    {
+        if (cnt) {
+            --(*cnt);
+        }
+    }
+
+  private:
+    std::atomic<int>* cnt{nullptr};
+};
+class safe_token {
+  public:
+    explicit safe_token(std::atomic<int>& c): cnt(&c, [](std::atomic<int>*) {}) { ++c; }
+    safe_token(safe_token&&) = default;        // shared_ptr nulls the source
+    ~safe_token()
+    {
+        if (cnt) {
+            --(*cnt);
+        }
+    }
+
+  private:
+    std::shared_ptr<std::atomic<int>> cnt;
+};
+
 // A8 nullable-field rule: member pointer that a constructor can leave null,
 // dereferenced without a test
 class nullable_deref {
